@@ -282,7 +282,10 @@ func ArgsFromStep(s *simkit.Step, cookieOf func(key uint64) uint32) WriteArgs {
 		a.Cookie = uint32(s.Int("cookie"))
 	}
 	a.Data = rng.Bytes(int(s.Int("size")))
-	if s.Int("dup") == 0 && len(a.Data) >= 8 {
+	if d := s.Int("dup"); d != 0 {
+		// payload shared by every upload with the same dup class and size: identical rewrites
+		a.Data = simkit.NewRand(uint64(d) * 7919).Bytes(int(s.Int("size")))
+	} else if len(a.Data) >= 8 {
 		// make the payload unique and attributable: embed the step seed
 		copy(a.Data, fmt.Sprintf("%08x", uint32(s.Seed)))
 	}
